@@ -199,7 +199,7 @@ func suiteMuxSession(h *H) {
 			}
 		}
 		// error frame at a random stage: must fail with the server's message
-		cut := h.rng.Intn(len(payload) + 1)
+		cut := h.rng.Intn(len(payload)) // before a byte the client still needs: after the last one it may have finished
 		msg := "gokr-rsync [sender]: something broke " + strconv.Itoa(s) + "\n"
 		var st bytes.Buffer
 		st.Write(seed)
